@@ -69,6 +69,15 @@ impl M {
         let out = ctx.out_dir.clone();
         let tag = format!("{}-{}", ctx.engine.name(), ctx.shard);
         let seed = ctx.seed;
+        // interpreters and valgrind are orders of magnitude slower: there the CPU bound is only a backstop
+        // (the logical end-of-file bound stays as it is)
+        let cpu_bound_s = match ctx.engine {
+            crate::ctx::Engine::Miri => CPU_BOUND_S * 360.0,
+            crate::ctx::Engine::Memcheck => CPU_BOUND_S * 60.0,
+            crate::ctx::Engine::Asan => CPU_BOUND_S * 6.0,
+            _ => CPU_BOUND_S,
+        };
+        let wall_bound_s = if ctx.light() { WALL_BOUND_S * 24.0 } else { WALL_BOUND_S };
         // the loader runs on the main thread; its task path lets the watchdog read its CPU time
         let task = std::fs::read_link("/proc/thread-self").ok().map(|p| p.to_string_lossy().into_owned());
         std::thread::spawn(move || {
@@ -96,9 +105,9 @@ impl M {
                 let wall_s = t0.elapsed().as_secs_f64();
                 let reason = if eof > EOF_BOUND {
                     Some(("eof_returned_again_and_again", 17))
-                } else if cpu_s > CPU_BOUND_S {
+                } else if cpu_s > cpu_bound_s {
                     Some(("cpu_time_bound", 17))
-                } else if wall_s > WALL_BOUND_S {
+                } else if wall_s > wall_bound_s {
                     Some(("wall_clock_watchdog", 18))
                 } else {
                     None
@@ -136,13 +145,13 @@ impl M {
     }
 
     /// base document number `n`: a generated FIBEX document, or (every 8th) a repository sample
-    fn base_doc(&self, seed: u64, n: u64) -> (Vec<u8>, String) {
-        if n % 8 == 0 && !self.base_docs.is_empty() {
+    fn base_doc(&self, seed: u64, n: u64, miri: bool) -> (Vec<u8>, String) {
+        if !miri && n % 8 == 0 && !self.base_docs.is_empty() {
             let (name, d) = &self.base_docs[(n / 8) as usize % self.base_docs.len()];
             return (d.clone(), name.clone());
         }
         let mut grng = crate::rng::Rng::for_case(seed, "C12-base", n);
-        let small = grng.chance(1, 2);
+        let small = grng.chance(1, 2) || miri;
         let model = gen_model(&mut grng, small);
         let els: Vec<El> = gen_layout(&mut grng, &model).files.into_iter().flatten().collect();
         let mut d = emit_file(&mut grng, &els).into_bytes();
@@ -246,7 +255,7 @@ impl Monitor for M {
         // even indices: truncation chunks (every offset of every document, exhaustively);
         // odd indices: 16 other damage operators applied to a document
         let doc_no = if idx % 2 == 0 { (idx / 2) / TRUNC_CHUNKS } else { (idx / 2) / 4 };
-        let (doc, origin) = self.base_doc(ctx.seed, doc_no);
+        let (doc, origin) = self.base_doc(ctx.seed, doc_no, ctx.miri());
         if origin != "generated" {
             ctx.obs("base.repository_sample");
         } else {
@@ -264,7 +273,7 @@ impl Monitor for M {
             }
             let lo = (chunk * TRUNC_CHUNK_SIZE) as usize;
             let hi = (((chunk + 1) * TRUNC_CHUNK_SIZE) as usize).min(doc.len() + 1);
-            let step = if ctx.light() { 37 } else { 1 };
+            let step = if ctx.miri() { 131 } else if ctx.light() { 37 } else { 1 };
             let mut off = lo;
             while off < hi {
                 let cl = context_at(&doc, off);
@@ -284,7 +293,7 @@ impl Monitor for M {
             }
             return;
         }
-        for rep in 0..16u64 {
+        for rep in 0..(if ctx.miri() { 2u64 } else { 16u64 }) {
             let op = 1 + ((idx / 2 + rep) as usize % (DAMAGE_OPS.len() - 1));
             let sys = ctx.rng.next();
             let (damaged, name, at) = damage(&mut ctx.rng, &doc, op, sys);
